@@ -864,6 +864,31 @@ func vfc07GenMatchersMulti(rng *rand.Rand, u *vfc07Universe, extProb float64) []
 	return ms
 }
 
+// vfc07GenMatchersPositive draws selectors with at least two value-adding matchers (=, =~set, =~".+",
+// !="", prefix/class regex) on different stored labels, optionally plus one free matcher: several
+// posting groups with keys, which is what lets the store choose lazy posting expansion.
+func vfc07GenMatchersPositive(rng *rand.Rand, u *vfc07Universe) []vfc07M {
+	positive := map[string]bool{"eq": true, "re-set": true, "re-set-dup": true, "re-set-paren": true, "re-set-paren-dup": true, "re-plus": true, "neq-empty": true, "re-prefix": true, "re-class": true, "nre-empty": true}
+	perm := rng.Perm(len(u.names))
+	var out []vfc07M
+	for _, i := range perm[:2] {
+		name := u.names[i]
+		for {
+			m := vfc07GenMatcher(rng, name, u.values[name])
+			if positive[m.shape] {
+				out = append(out, m)
+				break
+			}
+		}
+	}
+	if rng.Intn(3) == 0 {
+		name := u.names[rng.Intn(len(u.names))]
+		out = append(out, vfc07GenMatcher(rng, name, u.values[name]))
+	}
+	rng.Shuffle(len(out), func(i, j int) { out[i], out[j] = out[j], out[i] })
+	return out
+}
+
 // vfc07GenMatchersSameName draws 2..3 matchers that all constrain one stored label (they end up
 // in one posting group and are merged key by key), optionally plus one matcher on another name.
 func vfc07GenMatchersSameName(rng *rand.Rand, u *vfc07Universe) []vfc07M {
@@ -997,6 +1022,38 @@ func vfc07Class(ms []vfc07M) string {
 		}
 	}
 	return vfc07Shapes(ms)
+}
+
+var vfc07ExtVals = map[string][]string{"cluster": {"eu", "us"}, "replica": {"r0", "r1", "r2"}, "region": {"one", "two"}, "tenant": {"t1", "t2"}}
+
+// vfc07NextExtSet derives the external label set a store is reconfigured to (as receive does on a
+// hashring / external-label reload): one or two of {add a name, remove a name, change a value};
+// the result is non-empty and differs from cur.
+func vfc07NextExtSet(rng *rand.Rand, cur labels.Labels) labels.Labels {
+	names := []string{"cluster", "replica", "region", "tenant"}
+	for {
+		b := labels.NewBuilder(cur)
+		for op := 0; op < 1+rng.Intn(2); op++ {
+			n := names[rng.Intn(len(names))]
+			switch {
+			case !cur.Has(n): // add
+				b.Set(n, vfc07ExtVals[n][rng.Intn(len(vfc07ExtVals[n]))])
+			case rng.Intn(2) == 0: // remove
+				b.Del(n)
+			default: // change the value
+				for _, v := range vfc07ExtVals[n] {
+					if v != cur.Get(n) {
+						b.Set(n, v)
+						break
+					}
+				}
+			}
+		}
+		next := b.Labels()
+		if !next.IsEmpty() && !labels.Equal(next, cur) {
+			return next
+		}
+	}
 }
 
 func vfc07SortedKeys(m map[string]struct{}) []string {
